@@ -24,7 +24,7 @@ import threading
 from . import lib
 
 AREA = "Fees"
-THEOREMS = "ThOkPaysFee ThPaddingCovers ThTrichotomy ThNoInputs ThSupportIsStructural ThAmountsSane"
+THEOREMS = "ThOkPaysFee ThPaddingCovers ThTrichotomy ThNoInputs ThSupportIsStructural ThCountsIgnoreProposedVersion ThAmountsSane"
 MIN_CASES = 15000
 REQUIRED = ["pczt:ok", "pczt:insufficient", "pczt:change", "pczt:unsupported", "pczt:pczt_zip212", "build:ok", "build:insufficient",
             "build:change", "build:unsupported", "build:missing_key", "deferred:ok", "deferred:insufficient", "deferred:change",
